@@ -142,6 +142,26 @@ def run(facts, res):
             if st.rv.kind == "agg":
                 idx_term = cdu.operand_term(st.rv.operands()[0], 20)
         flows = idx_term is not None and contains_call(idx_term, "max")
+        if not (has_max and maps_index):
+            # loop form of the maximum: `let mut hi = 0; for a in anchors { if a.index > hi { hi = a.index } }`
+            from ..conds import lits_of as _lo
+            for l_, info in enumerate(ctor.locals):
+                ds = cdu.full_defs(l_)
+                if len(ds) < 2 or ctor.local_ty(l_) != "u32":
+                    continue
+                init0 = any(d.kind == "assign" and d.rv.kind == "use" and d.rv.operands()[0].is_const() and d.rv.operands()[0].const_int() == 0 for d in ds)
+                ups = [d for d in ds if not (d.kind == "assign" and d.rv.kind == "use" and d.rv.operands()[0].is_const())]
+                good = bool(ups)
+                for d in ups:
+                    vt = cdu.rvalue_term(d.rv, 10) if d.kind == "assign" else cdu.call_term(d.term, d.block, 10)
+                    elem = any(x[0] == "call" and callee_name(x) == "next" for x in walk(vt)) and \
+                        (any(x[0] == "field" and x[2] == "0" for x in walk(vt)) or contains_call(vt, "index"))
+                    under_gt = any(l.kind == "cmp" and ((l.term[1] == "Gt" and l.truth is True) or (l.term[1] == "Le" and l.truth is False) or
+                                                          (l.term[1] == "Lt" and l.truth is True) or (l.term[1] == "Ge" and l.truth is False)) and
+                                   any(x[0] == "var" and x[1] == l_ for x in walk(l.term)) for l in _lo(ctor, d.block, facts))
+                    good = good and elem and under_gt
+                if init0 and good and idx_term is not None and any(x[0] == "var" and x[1] == l_ for x in walk(idx_term)):
+                    has_max = maps_index = dflt0 = flows = True
         res.instance("I2", "new_from_anchors: index = max(parent.index()) [%s/%s], default 0 [%s], + 1 [%s], flows into field 0 [%s]" % (
             has_max, maps_index, dflt0, plus1, flows), ctor.loc())
         if not (has_max and maps_index and dflt0 and plus1 and flows):
@@ -167,8 +187,18 @@ def run(facts, res):
                 if st.kind == "assign" and st.rv.kind == "binop" and st.rv.j["op"] in ("Lt", "Gt", "Le", "Ge"):
                     ops.append(st.rv.j["op"])
         tie = any(t.callee is not None and t.callee.name == "cmp" for _, t in cmpb.calls())
-        res.instance("I2", "DeltaId::cmp compares index (%s) then digest (%s)" % (sorted(ops), tie), cmpb.loc())
-        if sorted(ops) != ["Gt", "Lt"] or not tie:
+        ok_form = sorted(ops) == ["Gt", "Lt"] and tie
+        if not ok_form:
+            # `match self.0.cmp(&other.0) { Equal => self.1.cmp(&other.1), unequal => unequal }` (or then_with): decided by the
+            # comparator interpreter of C05 on the abstract domain index {<,=,>} x digest {<,=,>}
+            try:
+                from .c05 import _run_cmp
+                cdu_ = du_of(cmpb)
+                ok_form = all(_run_cmp(cmpb, cdu_, facts, False, False, ix, st_) == (ix if ix != "=" else st_) for ix in "<=>" for st_ in "<=>")
+            except Exception:
+                ok_form = False
+        res.instance("I2", "DeltaId::cmp compares index (%s) then digest (%s): index first, digest breaks ties: %s" % (sorted(ops), tie, ok_form), cmpb.loc())
+        if not ok_form:
             res.violation("I2", "deltaid-order", "DeltaId::cmp is no longer `index <, index >, else digest.cmp`", cmpb.loc())
 
     # ------------------------------------------------------------------ I3
@@ -202,7 +232,7 @@ def run(facts, res):
             if s_ is None and cb.kind == "closure":
                 for cs in cg_of(facts).callers_of(cb.path):
                     if cb in cs.closures:
-                        s_ = s_ or c02.chain_filter_status(facts, arg_term(cs.body, cs.term, 0, 30))
+                        s_ = s_ or c02.chain_filter_status(facts, arg_term(cs.body, cs.term, 0, 30)) or site_status(cs.body, cs.block)
             return s_
         guard_form_ins = bool(ins_sites) and all(site_status(cb, bi) == "Applied" for cb, bi, t in ins_sites)
         guard_form_rem = bool(rem_sites) and all(site_status(cb, bi) == "Applied" for cb, bi, t in rem_sites)
@@ -225,7 +255,13 @@ def run(facts, res):
         rem = []
         for cb, bi, t in rem_sites:
             a = arg_term(cb, t, 1, 30)
-            rem.append(any(x[0] == "field" and x[2] == "parents" for x in walk(a)))
+            from_parents = any(x[0] == "field" and x[2] == "parents" for x in walk(a))
+            if not from_parents and cb.kind == "closure" and any(x[0] == "param" and x[1] == 2 for x in walk(a)):
+                # `parents.iter().for_each(|p| { anchors.remove(p); })`: the element of a chain over the block's parents
+                for cs in cg_of(facts).callers_of(cb.path):
+                    if cb in cs.closures and cs.term.args and any(x[0] == "field" and x[2] == "parents" for x in walk(arg_term(cs.body, cs.term, 0, 30))):
+                        from_parents = True
+            rem.append(from_parents)
         res.instance("I3", "get_anchors removes the parents of applied blocks: %s" % rem, ga.loc())
         if rem != [True]:
             res.violation("I3", "get_anchors|parent-removal", "get_anchors must remove exactly the elements of each applied block's `parents` from the candidate set", ga.loc())
@@ -273,10 +309,20 @@ def run(facts, res):
     gd = facts.body("melda::Melda::get_delta")
     if gd is not None:
         ok = False
+        VIEW = {"clone", "deref", "expect", "unwrap", "read", "get", "map", "cloned", "as_ref", "and_then", "lock", "borrow", "as_deref", "ok_or_else", "branch"}
         for bi, st in assigns_of_return(gd, "Ok"):
             t = du_of(gd).rvalue_term(st.rv, 20)
-            cl = [x for x in walk(t) if x[0] == "call" and callee_name(x) == "clone"]
-            others = [callee_name(x) for x in walk(t) if x[0] == "call" and callee_name(x) not in ("clone", "deref", "expect", "unwrap", "read", "get")]
+            cl = [x for x in walk(t) if x[0] == "call" and callee_name(x) in ("clone", "cloned")]
+            others = [callee_name(x) for x in walk(t) if x[0] == "call" and callee_name(x) not in VIEW]
+            # `.map(|b| b.read().expect(..).clone())`: the closure only views and clones
+            for x in walk(t):
+                if x[0] == "closure":
+                    cb_ = facts.body(x[1])
+                    if cb_ is not None:
+                        names_ = [tt.callee.name for _, tt in cb_.calls() if tt.callee is not None]
+                        others += [n_ for n_ in names_ if n_ not in VIEW]
+                        if "clone" in names_:
+                            cl.append(x)
             if cl and not others:
                 ok = True
         res.instance("I5", "get_delta returns an untransformed clone of the stored block: %s" % ok, gd.loc())
